@@ -69,6 +69,11 @@ CHECKS = {
          "All strings of length <=3/4 over {a, b, é, €, 😀, U+0301, ','} (plus overlap-prone extras) and all non-empty patterns of length <=2 are run through every code-point-sensitive builtin (length, index, slices, substr, findSubstr, stringChars, codepoint/char, reverse, map/flatMap/mapWithIndex, split/splitLimit/splitLimitR, join, strip*, strReplace, trim, startsWith/endsWith, case functions, member, repeat, %Ns/%-Ns/%*s widths) and compared with ref_strings; every Unicode scalar value goes through 17 observations; parseHex/parseOctal/parseInt get a multi-byte character at every byte position 0..45.",
          "Trusted: ref_strings (definitions over code points); strings longer than the bound are not covered.",
          "DESIGN.md §4 C18"),
+ "C20": ("model_checking",
+         "exhaustive enumeration of token sequences / byte arrays / scalar values against reference decoders (ref_json model, Python int/base64/hashlib/ast oracles, lossy UTF-8 decoding)",
+         "parseInt/Octal/Hex on digit patterns of every listed length with a non-digit at every position (Python int()+float(), correct rounding); parseJson on all token sequences up to the bound over 31 JSON tokens against a strict RFC 8259 + duplicate-key model (cross-checked with serde_json), parseYaml equal to parseJson on every valid JSON document among them and total on all sequences over 39 YAML tokens plus anchor / multi-document / nesting probes; base64 on all byte arrays of length <=2 and decoder inputs up to length 4/5; encodeUTF8/decodeUTF8 on every scalar value and all border byte sequences; md5/sha1/sha256/sha512/sha3 for every message length 0..300; every escapeString* function round-trips through its target language's reader on every scalar value.",
+         "Trusted: ref_json, Python's int/base64/hashlib/ast, String::from_utf8_lossy; lone-surrogate JSON documents are don't-care; inputs outside the alphabets are not covered.",
+         "DESIGN.md §4 C20"),
 }
 def main():
     hooks = subprocess.run(["git","-C","/repo","log","--format=%H %s"],capture_output=True,text=True).stdout.splitlines()
